@@ -808,6 +808,7 @@ func (c *Conn) runWriteLoop() (lastErr error) {
 
 			err := c.writeRequest(ctx)
 			if err != nil {
+				verifTick(verifTickCliReqFailed)
 				ctx.resolve(err)
 
 				if errors.Is(err, ErrNotAvailableStreams) {
@@ -1172,6 +1173,7 @@ func (c *Conn) writeRequest(ctx *Ctx) error {
 	// and that can be the read loop before the frame below has been written,
 	// counts it back down.
 	atomic.AddInt32(&c.openStreams, 1)
+	verifTick(verifTickCliReqOnTable)
 
 	// A GOAWAY may have come in since CanOpenStream was asked. The read loop
 	// fails the streams above the server's last one when it sees it, but only
